@@ -14,7 +14,7 @@
 // direct = what the call should delegate to: the back end of the method name called directly (boost quadrature,
 //   Integrate_Gauss_Legendre, Find_Epsilon + Integrate), nested by the harness itself level by level with the same
 //   method_parameter at every level, on the same user function.  (Not recomputed, i.e. the value is repeated, for "Trapezoidal" in two
-//   and three dimensions and "Tanh-Sinh" in three when the call itself took more than 1.5e6 evaluations of the user's function: the direct
+//   and three dimensions and "Tanh-Sinh" in three when the call itself took more than 7e5 evaluations of the user's function: the direct
 //   nesting costs as many again.)
 // neval/digest/min/max describe the arguments with which the user's function was called by the library.  The azimuth of a vector is
 //   recorded as the representative of atan2(vy,vx) modulo 2 pi that lies within pi of the middle of the azimuth limits of the call, so
@@ -146,8 +146,8 @@ static double direct_nd(const std::string& method, const std::function<double(co
 }
 
 // the direct nesting of these two is as expensive as the call: it is left out when the call itself was expensive
-static bool costly3(const std::string& method, long n) { return (method == "Trapezoidal" || method == "Tanh-Sinh") && n > 1500000; }
-static bool costly2(const std::string& method, long n) { return method == "Trapezoidal" && n > 1500000; }
+static bool costly3(const std::string& method, long n) { return (method == "Trapezoidal" || method == "Tanh-Sinh") && n > 700000; }
+static bool costly2(const std::string& method, long n) { return method == "Trapezoidal" && n > 700000; }
 
 static void do_call(const std::string& op, vh::Reader& r, vh::Out& o)
 {
